@@ -446,7 +446,8 @@ pub fn gen_request(
                     2 => String::new(),
                     _ => "scanner '' \u{1F600}".to_string(),
                 };
-                let mut d = json!({"range": {"start": a, "end": b}, "message": msg});
+                let range = if rng.chance(1, 2) { gen_token_range(rng, text) } else { json!({"start": a, "end": b}) };
+                let mut d = json!({"range": range, "message": msg});
                 match rng.below(4) {
                     0 => {}
                     1 => d["code"] = json!(17),
@@ -520,6 +521,104 @@ pub fn mutate_text(rng: &mut Rng, text: &str) -> String {
     chars.into_iter().collect()
 }
 
+/// A small, editor-like edit of the current text (the next version of a document is usually
+/// the previous one with a line commented out, removed, duplicated, a few characters typed...).
+pub fn derive_edit(rng: &mut Rng, prev: &str) -> String {
+    let mut lines: Vec<String> = prev.split('\n').map(|l| l.to_string()).collect();
+    if lines.is_empty() {
+        return "// x\n".to_string();
+    }
+    let n_edits = 1 + rng.below(2);
+    for _ in 0..n_edits {
+        let i = rng.usize_below(lines.len());
+        match rng.below(9) {
+            0 | 1 => {
+                // comment the line out (keep the indentation)
+                let indent: String = lines[i].chars().take_while(|c| c.is_whitespace()).collect();
+                let rest: String = lines[i].chars().skip(indent.chars().count()).collect();
+                let marker = *rng.pick(&["// ", "//", "# "]);
+                lines[i] = format!("{indent}{marker}{rest}");
+            }
+            2 => {
+                // uncomment
+                if let Some(p) = lines[i].find("//") {
+                    lines[i].replace_range(p..p + 2, "");
+                }
+            }
+            3 => {
+                lines.remove(i);
+                if lines.is_empty() {
+                    lines.push(String::new());
+                }
+            }
+            4 => {
+                let l = lines[i].clone();
+                lines.insert(i, l);
+            }
+            5 => {
+                let add = *rng.pick(&[" // note", " /* c */", ";", " |", " \"x\"", " X", ":", " %skip Y", "\u{e4}"]);
+                lines[i].push_str(add);
+            }
+            6 => {
+                // type a character somewhere in the line
+                let chars: Vec<char> = lines[i].chars().collect();
+                let at = rng.usize_below(chars.len() + 1);
+                let c = *rng.pick(&['a', 'Z', '_', ' ', ';', '"', '%', '\u{e9}']);
+                let mut v = chars;
+                v.insert(at, c);
+                lines[i] = v.into_iter().collect();
+            }
+            7 => {
+                // delete a character
+                let mut v: Vec<char> = lines[i].chars().collect();
+                if !v.is_empty() {
+                    let at = rng.usize_below(v.len());
+                    v.remove(at);
+                }
+                lines[i] = v.into_iter().collect();
+            }
+            _ => {
+                // join with the next line
+                if i + 1 < lines.len() {
+                    let next = lines.remove(i + 1);
+                    lines[i].push_str(&next);
+                }
+            }
+        }
+    }
+    lines.join("\n")
+}
+
+/// A range that covers exactly one token of the text (preferring lines with directives).
+pub fn gen_token_range(rng: &mut Rng, text: &str) -> Value {
+    let lines: Vec<&str> = text.split('\n').collect();
+    let directive_lines: Vec<usize> = (0..lines.len()).filter(|i| lines[*i].contains('%')).collect();
+    let li = if !directive_lines.is_empty() && rng.chance(2, 3) {
+        *rng.pick(&directive_lines)
+    } else {
+        rng.usize_below(lines.len())
+    };
+    let l: Vec<char> = lines[li].chars().collect();
+    let mut toks: Vec<(usize, usize)> = vec![];
+    let mut i = 0;
+    while i < l.len() {
+        if l[i].is_alphanumeric() || l[i] == '_' {
+            let s = i;
+            while i < l.len() && (l[i].is_alphanumeric() || l[i] == '_') {
+                i += 1;
+            }
+            toks.push((s, i));
+        } else {
+            i += 1;
+        }
+    }
+    if toks.is_empty() {
+        return json!({"start": {"line": li, "character": 0}, "end": {"line": li, "character": l.len()}});
+    }
+    let (s, e) = toks[rng.usize_below(toks.len())];
+    json!({"start": {"line": li, "character": s}, "end": {"line": li, "character": e}})
+}
+
 pub struct C30Config {
     pub max_docs: usize,
     pub max_edits: usize,
@@ -541,6 +640,8 @@ pub fn gen_c30(rng: &mut Rng, corpus: &Corpus, cfg: &C30Config) -> Value {
         ops.push(json!({"t": "resp", "id": 1000}));
     }
     let mut text_of: Vec<Option<(String, usize, bool)>> = vec![None; n_docs];
+    // corpus texts every document went through (their diagnostics are what an editor may still hold)
+    let mut history: Vec<Vec<usize>> = vec![vec![]; n_docs];
     let mut version = vec![0i64; n_docs];
     let mut edits_left = n_edits;
     let mut reqs_left = n_reqs;
@@ -562,10 +663,20 @@ pub fn gen_c30(rng: &mut Rng, corpus: &Corpus, cfg: &C30Config) -> Value {
                 *rng.pick(&usable)
             };
             let mut text = instantiate(&corpus.texts[ti], if rng.chance(1, 2) { 0 } else { rng.below(50) });
-            let mutated = cfg.mutate && rng.chance(1, 3);
+            let mut mutated = cfg.mutate && rng.chance(1, 3);
+            let mut ti = ti;
             if mutated {
                 text = mutate_text(rng, &text);
             }
+            // half of the changes are small edits of the document's current text
+            if let Some((prev, prev_ti, _)) = &text_of[d] {
+                if cfg.mutate && rng.chance(1, 2) {
+                    text = derive_edit(rng, prev);
+                    ti = *prev_ti;
+                    mutated = true;
+                }
+            }
+            history[d].push(ti);
             version[d] += 1;
             let kind = if text_of[d].is_none() { "open" } else { "change" };
             ops.push(json!({"t": kind, "uri": uri(d), "version": version[d], "text": text, "src": corpus.texts[ti].name, "mutated": mutated}));
@@ -579,9 +690,11 @@ pub fn gen_c30(rng: &mut Rng, corpus: &Corpus, cfg: &C30Config) -> Value {
             let open_docs: Vec<usize> = (0..n_docs).filter(|d| text_of[*d].is_some()).collect();
             let d = *rng.pick(&open_docs);
             let (text, ti, mutated) = text_of[d].clone().unwrap();
+            // diagnostics of the current or of an earlier text of this document (stale ones)
+            let dti = if !history[d].is_empty() && rng.chance(1, 2) { *rng.pick(&history[d]) } else { ti };
             let known = corpus
                 .classes
-                .get(&(ti, max_k))
+                .get(&(dti, max_k))
                 .map(|c| c.diagnostics.clone())
                 .unwrap_or(Value::Null);
             let (mut op, _) = gen_request(rng, id, &uri(d), &text, &known);
